@@ -104,7 +104,7 @@ type variant struct {
 }
 
 // variants re-shapes a record. wanted are the keys the projections materialise.
-func variants(r *lib.RNG, es []entry, wanted []string, donor []entry) []variant {
+func variants(r *lib.RNG, es []entry, wanted []string, donor []entry, allKeys bool) []variant {
 	cp := func() []entry { return append([]entry{}, es...) }
 	var vs []variant
 	vs = append(vs, variant{"as-stored", cp()})
@@ -116,7 +116,13 @@ func variants(r *lib.RNG, es []entry, wanted []string, donor []entry) []variant 
 	vs = append(vs, variant{"reversed", rev})
 	// drop / null a wanted key, and a random key
 	keys := append([]string{}, wanted...)
-	if len(es) > 0 {
+	if allKeys {
+		// exhaustive: every key of the record dropped / null, one at a time
+		keys = nil
+		for _, e := range es {
+			keys = append(keys, e.key)
+		}
+	} else if len(es) > 0 {
 		keys = append(keys, es[r.Intn(len(es))].key)
 	}
 	for _, k := range keys {
@@ -226,7 +232,7 @@ func (h *H) projHeader(g *Gen, ci int, mode string) {
 		return
 	}
 	wanted := []string{"Hash", "GlobalStateRoot", "TransactionCount", "Timestamp", "EventsBloom"}
-	for vi, v := range variants(g.R, es, wanted, des) {
+	for vi, v := range variants(g.R, es, wanted, des, ci%6 == 0) {
 		raw := assemble(nil, v.es)
 		mem := memory.New()
 		const num = 42
@@ -375,7 +381,7 @@ func (h *H) projBlob(g *Gen, ci int, mode string) {
 		return newPoisonStore(d), raw
 	}
 	// --- receipts -----------------------------------------------------------------------------
-	for vi, v := range variants(g.R, res1, []string{"Reverted", "RevertReason", "Events", "TransactionHash"}, dres) {
+	for vi, v := range variants(g.R, res1, []string{"Reverted", "RevertReason", "Events", "TransactionHash"}, dres, ci%6 == 1) {
 		item := assemble(nil, v.es)
 		d, raw := put([][]byte{txb[0], txb[1], txb[2], rcb[0], item, rcb[2]}, 3)
 		res.Hit("proj-receipt:" + v.name)
@@ -431,7 +437,7 @@ func (h *H) projBlob(g *Gen, ci int, mode string) {
 		}
 	}
 	// --- transactions ---------------------------------------------------------------------------
-	for vi, v := range variants(g.R, tes, []string{"TransactionHash"}, dtes) {
+	for vi, v := range variants(g.R, tes, []string{"TransactionHash"}, dtes, ci%6 == 2) {
 		item := assemble(tag, v.es)
 		d, raw := put([][]byte{txb[0], item, txb[2], rcb[0], rcb[1], rcb[2]}, 3)
 		res.Hit("proj-tx:" + v.name)
